@@ -47,7 +47,7 @@ static int Parse(const char * v, const unsigned char * bytes, size_t n, const un
 {
    unsigned char * x = (unsigned char *) malloc(n ? n : 1); c_status_t r; char t[300];
    if (n) memcpy(x, bytes, n);
-   g_target = "MMUnflattenMessage"; g_runs++; alarm(10);
+   g_target = "MMUnflattenMessage"; g_runs++; alarm(40);
    g_cur = g_peak = g_cum = 0; g_measure = 1; r = MMUnflattenMessage(reuse, x, (uint32) n); g_measure = 0;
    if (g_peak > g_worstPeak) {g_worstPeak = g_peak; g_worstN = n;}
    if (g_peak > 64*n + 65536) {snprintf(t, sizeof(t), "MMUnflattenMessage: peak of %zu live heap bytes (%zu allocated in total) while parsing a complete %zu-byte buffer; budget 64*N+64KiB = %zu", g_peak, g_cum, n, 64*n+65536); Note("violations", t, bytes, n);}
@@ -102,7 +102,7 @@ static void Gateway(const char * v, const unsigned char * s, size_t n, const uns
    const size_t c[] = {1, 7, 8, 9, 12, 20, (n > 1) ? n-1 : 0}; size_t i;
    memset(&f, 0, sizeof(f)); f.d = s; f.n = n; f.mode = mode;
    for (i=0; i<sizeof(c)/sizeof(c[0]); i++) if ((c[i] > 0)&&(c[i] < n)&&((f.ncuts == 0)||(c[i] > f.cuts[f.ncuts-1]))) f.cuts[f.ncuts++] = c[i];
-   g_target = "MGDoInput"; g_runs++; alarm(10);
+   g_target = "MGDoInput"; g_runs++; alarm(40);
    while(calls++ < 100000)
    {
       MMessage * m = NULL; const int32 r = MGDoInput(gw, ~((uint32) 0), Recv, &f, &m);
